@@ -17,7 +17,7 @@ PROPS = {
                       "explored inputs (lengths <= 12); absence beyond that is not established.",
         "level_note": "Trusted: the 60-line reference definitions in harness/checks/c14_test.go (Go strings.* conventions), "
                       "obs.Denote (exported enumerators only), rapid.",
-        "tests": [{"name": "TestC14", "quick": 2500, "thorough": 40000}],
+        "tests": [{"name": "TestC14", "quick": 2500, "thorough": 25000}],
         "rule": "abstract sequences over {1,2,(3)} of length 0-8 (thorough 0-12), patterns of length 0-4 taken from the "
                 "subject half of the time, encoded as string / byte array / array and passed to each //seq function; "
                 "oracle = textbook definition on []int re-encoded in the same representation. Non-trivial: empty "
@@ -38,7 +38,7 @@ PROPS = {
                       "the generated sizes (width <= 6, depth <= 3) is not established.",
         "level_note": "Trusted: harness/model (finite sets by comprehension, own unit tests), obs.Denote (exported enumerators only), rapid. "
                       "Failures inside the two open known findings (superimposed sequence index, sparse byte array) are excused by model-side tags only.",
-        "tests": [{"name": "TestC01", "quick": 3000, "thorough": 25000}],
+        "tests": [{"name": "TestC01", "quick": 3000, "thorough": 15000}],
         "rule": "one operator of | & &~ ~~ with without <: !<: (<) (<=) (>) (>=) (<>) (<>=) count where => ^ applied to generated sets; "
                 "oracle = reference model result compared with the denotation of the evaluated result, plus Count/Has/enumeration consistency. "
                 "Non-trivial: operands of different representation kinds, or an operand with offset/holes/colliding index or key/mixed buckets, "
@@ -58,7 +58,7 @@ PROPS = {
                       "Absence beyond generated sizes is not established.",
         "level_note": "Trusted: harness/model equality (canonical text of finite sets/tuples/numbers), the path renderer (paths are equal to D by "
                       "construction in the model), rapid. Open known findings (superimposed index, sparse bytes) excused by model-side tags only.",
-        "tests": [{"name": "TestC02", "quick": 700, "thorough": 10000}],
+        "tests": [{"name": "TestC02", "quick": 700, "thorough": 6000}],
         "rule": "pairs (path1(D), path2(D)) or (path1(D), path2(D')) with D' a one-step mutation of D. Non-trivial: D is not a bare number and at least "
                 "two different construction forms were used, one of them computed. Distinct = distinct program text.",
         "assumptions": COMMON_ASSUMPTIONS + [
@@ -74,7 +74,7 @@ PROPS = {
                       "The oracle checks = against model equality, trichotomy, transitivity, derived relations, orderby being a sorted permutation, "
                       "min/max being its ends and the printed member order being the sorted order. Absence beyond generated sizes is not established.",
         "level_note": "Trusted: model equality, the law checker in c06_test.go, rapid. No expected order is imposed, only the order laws the property states.",
-        "tests": [{"name": "TestC06", "quick": 350, "thorough": 6000}],
+        "tests": [{"name": "TestC06", "quick": 350, "thorough": 4000}],
         "rule": "k in 2..4 values, each fresh, a duplicate of an earlier one through another construction path, or a one-step mutation of an earlier one. "
                 "Non-trivial: values of at least two different kinds, or a kind with offset/holes/multi-values/relation/union. Distinct = distinct program text.",
         "assumptions": COMMON_ASSUMPTIONS + [
@@ -91,7 +91,7 @@ PROPS = {
                       "++ with union-after-shift-by-count; n\\seq with the shifted set (non-integer n: error or exact). Absence beyond generated sizes is not established.",
         "level_note": "Trusted: model.CallAll/MapValues/shift, rapid. Where the property lets an operation reject a value it cannot represent (invalid char/byte from >>, "
                       "offset of a non-sequence, fractional offset) an ordinary error is accepted as well as the exact result; a silently different value never is.",
-        "tests": [{"name": "TestC05", "quick": 2500, "thorough": 25000}],
+        "tests": [{"name": "TestC05", "quick": 2500, "thorough": 15000}],
         "rule": "operators call, safe call, >>, >>>, ++, offset on generated keyed collections. Non-trivial: collection with offset/holes/duplicate key/mixed buckets, "
                 "or an argument that is absent, non-integer or of the wrong kind. Distinct = distinct program text.",
         "assumptions": COMMON_ASSUMPTIONS + [
@@ -107,7 +107,7 @@ PROPS = {
                       "relation with/|/without/where/nest and joins over derived and parent relations. The program returns all bound names at the end; each must "
                       "equal its model value. Absence beyond the generated histories is not established.",
         "level_note": "Trusted: the model value of every step (computed without sharing), rapid. Histories avoid (by construction, counted in classes) values the two open known findings cannot represent.",
-        "tests": [{"name": "TestC03", "quick": 1200, "thorough": 20000}],
+        "tests": [{"name": "TestC03", "quick": 1200, "thorough": 8000}],
         "rule": "let-chain histories; non-trivial = a parent that is extended at its end at least twice (branching append) or an end-append applied to the result of dropping "
                 "the last element. Distinct = distinct program text.",
         "assumptions": COMMON_ASSUMPTIONS,
@@ -161,7 +161,7 @@ PROPS = {
                       "agree), the text is evaluated and must denote the model value, be Equal both ways and print identically. Separately, string literals made "
                       "of raw characters and every documented escape form are decoded by the evaluator and by a 30-line reference decoder.",
         "level_note": "Trusted: obs.ToRel (NewTuple/NewSet/NewNumber only), obs.Denote, the reference escape decoder in genStrLit, rapid. The bundle config file is covered by C15.",
-        "tests": [{"name": "TestC12", "quick": 4000, "thorough": 60000}],
+        "tests": [{"name": "TestC12", "quick": 4000, "thorough": 30000}],
         "rule": "non-trivial: nesting depth >= 2, or a string with a character needing an escape, or a non-identifier attribute name, or an offset/hole, or a string literal with an escape. Distinct = distinct value key + literal.",
         "assumptions": COMMON_ASSUMPTIONS + [
             "tuples never hold both x and &x (the evaluator strips the counterpart, so such tuples cannot be produced)",
